@@ -15,13 +15,12 @@ def main(argv):
     with open(argv[1]) as f:
         batch = json.load(f)
     out = {}
+    flips = batch.get("flip") or []
     for i, cir in enumerate(batch["irs"]):
         for kind in kinds.KINDS:
             rec = {}
             for ww in (True, False):
-                opts = dict(kinds.default_opts(kind), word_wrap=ww)
-                if kind == "argparse":
-                    opts["wrap_description"] = ww
+                opts = kinds.wrap_opts(kind, bool(flips[i]) if i < len(flips) else False, ww)
                 try:
                     text = kinds.emit_text(kind, domain.to_ir(cir), opts)
                 except Exception as e:
